@@ -890,6 +890,7 @@ def run(ctx: Ctx):
     ctx.assumptions = [
         "validation / serialisation outcomes and the dump texts are inputs of the model; the reference obtains them from parser.validate, parser.dump and dump_using_format on a separately loaded copy",
         "local file system only (plain paths and file:// URIs of local files; no remote fsspec/URL targets), no symlinks, nobody else writes to the directory during save",
+        "FIFO targets are outside the model and not exercised: an existing FIFO passes Path(mode='fc') (fix 5706b13), is not refused by check_overwrite (os.path.isfile) and open(fifo,'w') blocks until a reader appears; a FIFO stores no content; existing non-files in the scenarios are directories",
         "an OS failure in the middle of write() after a successful open (class io) is outside the property; the model and the harness still track it",
         "save_path_content copies go through text mode: sources are UTF-8 text without carriage returns (newline translation is outside the model)",
     ]
